@@ -31,7 +31,6 @@ THEOREMS = [
     "C20.gated_blacklist", "C20.gated_whitelist", "C20.gated_packages", "C20.gated_run", "C20.modPath_undotted",
     "C20.gated_fqn_fails_undotted",
 ]
-MODEL_ERRS = {"AssertionError", "ModuleNotFoundError", "TypeError", "FileNotFoundError", "FileExistsError", "AttributeError", "NotADirectoryError"}
 
 
 # ----------------------------------------------------------------------------------------------------------------------
@@ -244,7 +243,10 @@ def init_defs_clash(tree: dict, cfg: dict, rel_src_path: str) -> bool:
         return False
     fqn_pkg = os.path.dirname(rel_src_path[len("src/"):]).replace("/", ".")
     top = cfg["module"]
-    mname = top if fqn_pkg == top else (fqn_pkg[len(top) + 1:] if fqn_pkg.startswith(top + ".") else None)
+    # the folder exmod starts from: the package itself, or the package holding the module file named by --module;
+    # packages found by the recursion are visited under their name relative to that folder
+    base_pkg = top if top in tree["packages"] else top.rpartition(".")[0]
+    mname = top if fqn_pkg == base_pkg else (fqn_pkg[len(base_pkg) + 1:] if fqn_pkg.startswith(base_pkg + ".") else None)
     return bool(mname) and any(n.startswith(mname) for n in names)
 
 
@@ -506,11 +508,10 @@ def run(chk: core.Check) -> int:
             directed.append(sc)
         wit = witnesses()
         wsc = [{"idx": -1 - i, "tree": t, "pre": {"kind": "absent"}, "runs": [{"cfg": c, "dry": False}]} for i, (_, t, c) in enumerate(wit)]
-        seen_before = {}
         t0 = time.time()
         for (fid, _, _), sc in zip(wit, wsc):
-            before = chk.kf.items and {it["id"]: it["seen"] for it in chk.kf.items} or {}
-            nw, dw = evaluate(chk, [sc], "witness %s" % fid)
+            before = {it["id"]: it["seen"] for it in chk.kf.items}
+            _, dw = evaluate(chk, [sc], "witness %s" % fid)
             after = {it["id"]: it["seen"] for it in chk.kf.items}
             if after.get(fid, 0) <= before.get(fid, 0):
                 chk.notes.append("known finding %s: its witness no longer fails (stale line in known_findings.d/C20.txt, or not listed)" % fid)
@@ -562,4 +563,4 @@ def replay(path: str) -> int:
         print("  FAILS:", v["what"])
     for kf, v in chk.known_seen.items():
         print("  KNOWN-FINDING %s: %s" % (kf, v["first"] and v["text"]))
-    return 1 if (chk.violations or chk.known_seen) else 0
+    return 1 if chk.violations else 0  # a listed known finding that reproduces is printed, not counted
